@@ -163,6 +163,16 @@ func (c *FnCtx) execInstr(fr *frame, st *State, guard string, instr ssa.Instruct
 		c.oblige("bounds", "slice2arr-off@"+x.Name(), guard, fmt.Sprintf("(= %s 0)", slOff(s.S)), "slice to array pointer at offset 0 (engine restriction)")
 		c.setVal(fr, x, Term{S: slArr(s.S), Sort: SInt, T: x.Type()})
 	case *ssa.MakeInterface:
+		if _, isLoc := c.valIn(fr, x.X).(*Loc); isLoc {
+			// address of a field/element boxed for a library call (binary.Read(&t.f)): the models
+			// look at the operand syntactically; the interface value itself is opaque
+			c.setVal(fr, x, Term{S: c.fresh("locif", SIface), Sort: SIface, T: x.Type()})
+			break
+		}
+		if lt, ok := c.valIn(fr, x.X).(Term); ok && lt.Sort == "LOCAL" {
+			c.setVal(fr, x, Term{S: c.fresh("locif", SIface), Sort: SIface, T: x.Type()})
+			break
+		}
 		c.setVal(fr, x, c.makeInterface(c.val(fr, x.X), x.X.Type(), x.Type()))
 	case *ssa.TypeAssert:
 		c.typeAssert(fr, st, guard, x)
@@ -555,6 +565,25 @@ func (c *FnCtx) loadFacts(st *State, t Term) {
 	}
 }
 
+// wrapInt: the machine result of an integer operation whose mathematical value is raw.
+func (c *FnCtx) wrapInt(raw string, t types.Type) string {
+	w, signed, _, ok := intWidth(t)
+	if !ok {
+		return raw
+	}
+	lo, hi, _ := intRange(t)
+	r := c.define("raw", SInt, raw)
+	var wr string
+	if signed {
+		wr = fmt.Sprintf("(- (mod (+ %s %s) %s) %s)", r, pow2(w-1), pow2(w), pow2(w-1))
+	} else {
+		wr = fmt.Sprintf("(mod %s %s)", r, pow2(w))
+	}
+	res := c.define("wr", SInt, wr)
+	c.assume("", fmt.Sprintf("(=> (and (<= %s %s) (<= %s %s)) (= %s %s))", lo, r, r, hi, res, r))
+	return res
+}
+
 func (c *FnCtx) nowrap(guard string, x ssa.Value, raw string) {
 	lo, hi, ok := intRange(x.Type())
 	if !ok || c.prof.NoWrapChecks {
@@ -676,18 +705,15 @@ func (c *FnCtx) intBinop(fr *frame, guard string, x *ssa.BinOp, a, b Term) Term 
 		return Term{S: fmt.Sprintf("(> %s %s)", a.S, b.S), Sort: SBool, T: rt}
 	case token.GEQ:
 		return Term{S: fmt.Sprintf("(>= %s %s)", a.S, b.S), Sort: SBool, T: rt}
-	case token.ADD:
-		r := fmt.Sprintf("(+ %s %s)", a.S, b.S)
+	case token.ADD, token.SUB, token.MUL:
+		op := map[token.Token]string{token.ADD: "+", token.SUB: "-", token.MUL: "*"}[x.Op]
+		r := fmt.Sprintf("(%s %s %s)", op, a.S, b.S)
+		if c.prof.NoWrapChecks {
+			// no no-wrap obligation in this profile: use the exact machine result instead
+			return mk(c.wrapInt(r, rt))
+		}
 		c.nowrap(guard, x, r)
 		return mk(c.define("ar", SInt, r)) // named: keeps quantifier triggers free of nested arithmetic
-	case token.SUB:
-		r := fmt.Sprintf("(- %s %s)", a.S, b.S)
-		c.nowrap(guard, x, r)
-		return mk(c.define("ar", SInt, r))
-	case token.MUL:
-		r := fmt.Sprintf("(* %s %s)", a.S, b.S)
-		c.nowrap(guard, x, r)
-		return mk(c.define("ar", SInt, r))
 	case token.QUO, token.REM:
 		c.oblige("divzero", "divzero@"+x.Name(), guard, fmt.Sprintf("(not (= %s 0))", b.S), "division by zero")
 		if !signed {
@@ -929,6 +955,11 @@ func (c *FnCtx) convert(fr *frame, st *State, guard string, x *ssa.Convert) Term
 			eb, sb = 11, 53
 		}
 		return Term{S: fmt.Sprintf("((_ to_fp %d %d) RNE %s)", eb, sb, a.S), Sort: tsort, T: to}
+	case (a.Sort == SFP32 || a.Sort == SFP64) && tint:
+		// float -> integer: left uninterpreted (an arbitrary value of the target type)
+		t := Term{S: c.fresh("f2i", tsort), Sort: tsort, T: to}
+		c.typeFacts(st, t, to)
+		return t
 	case a.Sort == SInt && tsort == SInt:
 		// pointer <-> unsafe.Pointer etc.
 		return Term{S: a.S, Sort: SInt, T: to}
